@@ -492,6 +492,12 @@ int main(int argc, char **argv) {
     static const bstep runs[] = {{"AddRange", 10000, 20000, ""}};
     static const bstep few[] = {{"Add", 7, 0, ""}, {"Add", 9, 0, ""}};
     static const bstep sixteen[] = {{"AddRange", 100, 116, ""}};
+    /* states in which Optimize has something to do: an array with much slack, a dense container that became
+     * sparse, a run container, a cleared dense container */
+    static const bstep slack[] = {{"AddRange", 0, 300, ""}, {"RemoveRange", 5, 300, ""}};
+    static const bstep sparsebm[] = {{"AddRange", 0, 4096, ""}, {"Add", 5000, 0, ""}, {"RemoveRange", 10, 4090, ""}};
+    static const bstep clearedbm[] = {{"AddRange", 0, 4096, ""}, {"Add", 5000, 0, ""}, {"Clear", 0, 0, ""},
+                                      {"Add", 65535, 0, ""}, {"Add", 3, 0, ""}};
     static const bstep after[] = {{"Add", 60000, 0, ""}, {"Remove", 7, 0, ""}, {"AddRange", 200, 210, ""}};
     struct {
         const char *name;
@@ -521,6 +527,12 @@ int main(int argc, char **argv) {
         {"codec array", few, 2, {"Codec", 0, 0, ""}},
         {"codec bitmap", fill4097, 2, {"Codec", 0, 0, ""}},
         {"codec runs", runs, 1, {"Codec", 0, 0, ""}},
+        {"optimize slack array", slack, 2, {"Optimize", 0, 0, ""}},
+        {"optimize sparse dense", sparsebm, 3, {"Optimize", 0, 0, ""}},
+        {"optimize runs", runs, 1, {"Optimize", 0, 0, ""}},
+        {"optimize cleared dense", clearedbm, 5, {"Optimize", 0, 0, ""}},
+        {"codec cleared dense", clearedbm, 5, {"Codec", 0, 0, ""}},
+        {"clone cleared dense", clearedbm, 5, {"Clone", 0, 0, ""}},
         {"or", few, 2, {"Or", 0, 0, "K2"}},
         {"or big", fill4096, 1, {"Or", 0, 0, "K1"}},
         {"and", fill4097, 2, {"And", 0, 0, "K2"}},
